@@ -20,7 +20,11 @@ import (
 func RunScenario(base string, tmpls []*Template, t *Tool, r *gen.Rand, nRounds int, withPreview bool, emit func(*Round)) {
 	w := NewWorld(base, tmpls, r)
 	for i := 0; i < nRounds; i++ {
-		if i > 0 {
+		metaOnly := i > 0 && r.Chance(1, 4)
+		if metaOnly {
+			// history shape: index, then only repository metadata changes (no commit, no move), then preview / -f
+			w.TouchMetadata(r)
+		} else if i > 0 {
 			w.MutateRoots(r)
 			w.MutateIndex(r)
 		} else if r.Chance(1, 4) {
@@ -30,7 +34,7 @@ func RunScenario(base string, tmpls []*Template, t *Tool, r *gen.Rand, nRounds i
 			w.AddBystanders(r)
 		}
 		kind := "sync"
-		if i > 0 && r.Chance(1, 3) {
+		if i > 0 && !metaOnly && r.Chance(1, 3) {
 			kind = "remove"
 		}
 		emit(w.RunRound(r, t, kind, withPreview))
